@@ -96,13 +96,13 @@ func c08DeclClass(t octosql.Type) string {
 // ---------------------------------------------------------------- atoms (typed variables and literals)
 
 type c08Atom struct {
-	name string
-	typ  octosql.Type    // declared type of the variable (literals: unused)
-	lit  bool            // literal constant: vals[0] is the constant
-	vals []octosql.Value // values of the declared type; NULL included iff the declared type admits it
-	core bool            // member of the reduced alphabet used for x IN (y, z)
-	small bool           // member of the smallest alphabet: inner expressions of depth 2 in the quick tier
-	fi   int             // index of the variable in the record scope (-1 for literals)
+	name  string
+	typ   octosql.Type    // declared type of the variable (literals: unused)
+	lit   bool            // literal constant: vals[0] is the constant
+	vals  []octosql.Value // values of the declared type; NULL included iff the declared type admits it
+	core  bool            // member of the reduced alphabet used for x IN (y, z)
+	small bool            // member of the smallest alphabet: inner expressions of depth 2 in the quick tier
+	fi    int             // index of the variable in the record scope (-1 for literals)
 }
 
 func c08Atoms(thorough bool) []c08Atom {
@@ -870,9 +870,9 @@ func c08Database() (*c08DB, []c08Col, []c08Col) {
 type c08QRes struct {
 	stage   string // "", or the stage that failed: parse, typecheck, materialize, run, panic
 	msg     string
-	plan    physical.Node     // typechecked plan (before optimization): its schema is what --describe prints
-	names   []string          // column names as printed
-	optTyps []octosql.Type    // column types of the plan that was executed
+	plan    physical.Node  // typechecked plan (before optimization): its schema is what --describe prints
+	names   []string       // column names as printed
+	optTyps []octosql.Type // column types of the plan that was executed
 	recs    []execution.Record
 }
 
